@@ -479,6 +479,10 @@ func (g *c24Gen) offer(t *rapid.T, ev *eval.BlockEvaluator, grp *c24Group) {
 		vk.Label("other: " + msg)
 	}
 	if grp.mustReject && grp.err == nil {
+		if grp.aggReject {
+			t.Fatalf("C24 VIOLATION: group accepted although its fees (top level %s + explicit inner fees) are below ceil(MinTxnFee*usage) = %s of the whole tree of top-level and inner transactions (top level alone: %s; MinTxnFee %d)\n%s",
+				grp.paidTop, grp.reqAll, grp.reqTop, g.w.proto.MinTxnFee, grp.render())
+		}
 		t.Fatalf("C24 VIOLATION: group accepted although its fees %s are below the requirement %s (usage %s micro-fees, MinTxnFee %d; whole tree incl. inner transactions: %s)\n%s",
 			grp.paidTop, grp.reqTop, grp.usageTop, g.w.proto.MinTxnFee, grp.reqAll, grp.render())
 	}
